@@ -190,3 +190,40 @@ func (c *Ctx) checkSetupGating() {
 	ru.Check(refusedBad == "" && nRefused > 0, "rows auth-error of the CONNECT handler", c.where(f, f), fmt.Sprintf("%d refusing path(s): one refusal CONNACK, nothing created", nRefused), refusedBad+map[bool]string{true: "", false: "no path handles an authentication error"}[nRefused > 0])
 	ru.Check(createdBad == "" && nAccepted > 0, "rows auth-ok / auth-untested of the CONNECT handler", c.where(f, f), fmt.Sprintf("%d accepting path(s), all after a nil authentication error", nAccepted), createdBad+map[bool]string{true: "", false: "no accepting path"}[nAccepted > 0])
 }
+
+// ruleRegisteredBeforeServed (C13-R8, C20-R8; part of C11-R8): on every accepting path of the CONNECT handler the session
+// is inserted in the local registry before its serving goroutine is started. The goroutine's teardown decides by the
+// registry whether the session still has to be torn down: started first, a connection that ends at once is taken for
+// already shut down — no will is published, its record and subscriptions stay — and the insert then leaves a zombie.
+func (c *Ctx) ruleRegisteredBeforeServed(id string) {
+	ru := c.R.Rule(id, "the session is inserted in the local registry before its per-connection goroutine is started (the goroutine's teardown takes a session that is not in the registry for already shut down: no will, record and subscriptions left behind; the insert that follows registers a dead session)", "E2 path order on the accepting paths of the CONNECT handler", 1)
+	handler, authCall := c.connectHandler(ru)
+	sa := c.setupAnchors(ru)
+	if handler == nil || sa == nil {
+		return
+	}
+	paths, err := c.handlerPaths(handler, sa)
+	if err != nil {
+		ru.Undecided("paths of the CONNECT handler", c.where(handler, handler), err.Error())
+		return
+	}
+	bad, n := "", 0
+	for _, p := range paths {
+		if isNil, tested := authErrNil(p, authCall); !tested || !isNil {
+			continue
+		}
+		registered := false
+		for _, pc := range p.Calls() {
+			switch {
+			case pc.Is(sa.localCreate):
+				registered = true
+			case isGo(pc):
+				n++
+				if !registered {
+					bad = "the goroutine is started before the registry insert: " + fmtPath(p, c.P)
+				}
+			}
+		}
+	}
+	ru.Check(bad == "" && n > 0, "registry insert precedes `go` in "+c.fname(handler), c.where(handler, handler), fmt.Sprintf("%d accepting path(s)", n), bad)
+}
